@@ -876,6 +876,14 @@ func (f *SettingsFrame) ForeachSetting(fn func(Setting) error) error {
 // It will perform exactly one Write to the underlying Writer.
 // It is the caller's responsibility to not call other Write methods concurrently.
 func (f *Framer) WriteSettings(settings ...Setting) error {
+	if !f.AllowIllegalWrites {
+		for _, s := range settings {
+			if s.ID == SettingInitialWindowSize && s.Val > 1<<31-1 {
+				// ReadFrame rejects such a frame.
+				return ConnectionError(ErrCodeFlowControl)
+			}
+		}
+	}
 	f.startWrite(FrameSettings, 0, 0)
 	for _, s := range settings {
 		f.writeUint16(uint16(s.ID))
